@@ -1,6 +1,7 @@
 package main
 
 import (
+	"google.golang.org/protobuf/encoding/prototext"
 	"fmt"
 	"strings"
 
@@ -91,7 +92,7 @@ func runC21(h *hx.H) {
 	if h.Thorough() {
 		maxDev = 3
 	}
-	h.Rule = fmt.Sprintf("inputs: main.proto of every workspace within %d deviations of the three bases (catalogue incl. built-in options with good and bad values, custom options of every element kind in scalar, aggregate, path, repeated and extension form, unknown and mistyped option names, editions features) whose dependencies compile and which links; oracle: with strict interpretation (linker.Link + options.InterpretOptions) as reference - when it succeeds, InterpretOptionsLenient on a fresh parse gives an equal proto, and InterpretUnlinkedOptions leaves in every options message only fields that strict also set with equal values, leaves the not-interpreted statements as a verbatim subsequence of the original uninterpreted options, and turns every removed built-in statement into a set field; when strict fails, lenient and unlinked still return without panic and leave a verbatim subsequence; non-trivial = file with >=1 custom option or a failing strict interpretation", maxDev)
+	h.Rule = fmt.Sprintf("inputs: main.proto of every workspace within %d deviations of the three bases (catalogue incl. built-in options with good and bad values, custom options of every element kind in scalar, aggregate, path, repeated and extension form, unknown and mistyped option names, editions features) whose dependencies compile and which links; oracle: with strict interpretation (linker.Link + options.InterpretOptions) as reference - when it succeeds, InterpretOptionsLenient on a fresh parse gives an equal proto, and InterpretUnlinkedOptions leaves in every options message only fields that strict also set with equal values, leaves the not-interpreted statements as a verbatim subsequence of the original uninterpreted options, turns every removed built-in statement into a set field, and gives exactly the options that strict interpretation gives for the file without the statements it left uninterpreted (a statement is applied completely or not at all); when strict fails, lenient and unlinked still return without panic and leave a verbatim subsequence; non-trivial = file with >=1 custom option or a failing strict interpretation", maxDev)
 	forEachWS(h, maxDev, func(idx int64, ws *model.WS, ndev int) {
 		h.Eval(1)
 		desc := wsDesc(ws)
@@ -106,6 +107,21 @@ func runC21(h *hx.H) {
 			}
 		}
 		mainFile := ws.Main()
+		// standard imports of main (descriptor.proto, go_features.proto, ...) come from a stub file
+		// that imports them
+		var stub strings.Builder
+		stub.WriteString("syntax = \"proto3\";\npackage zz.stub;\n")
+		needStub := false
+		for _, im := range mainFile.Imports {
+			if ws.File(im.Path) == nil && model.IsStdImport(im.Path) {
+				fmt.Fprintf(&stub, "import %q;\n", im.Path)
+				needStub = true
+			}
+		}
+		if needStub {
+			src["zz_stub.proto"] = stub.String()
+			depNames = append(depNames, "zz_stub.proto")
+		}
 		dres := compile(src, protocompile.SourceInfoNone, depNames...)
 		if dres.err != nil {
 			h.Count("deps_rejected", 1)
@@ -220,6 +236,78 @@ func runC21(h *hx.H) {
 		for _, o := range collectOptions(A) {
 			aOpts[o.path] = o.msg
 		}
+		// Exact reference for the unlinked result: strict interpretation of the file without the
+		// statements that the unlinked pass left uninterpreted. A statement that stays
+		// uninterpreted must not have contributed anything, and the others must have been applied
+		// completely.
+		if strictOK {
+			pr := parse()
+			left := map[string][]*descriptorpb.UninterpretedOption{}
+			for _, o := range collectOptions(C) {
+				left[o.path] = uninterpreted(o.msg)
+			}
+			for _, o := range collectOptions(pr.FileDescriptorProto()) {
+				f := o.msg.Descriptor().Fields().ByName("uninterpreted_option")
+				if f == nil {
+					continue
+				}
+				l := o.msg.Mutable(f).List()
+				var keep []protoreflect.Value
+				pending := append([]*descriptorpb.UninterpretedOption(nil), left[o.path]...)
+				for i := 0; i < l.Len(); i++ {
+					u := l.Get(i).Message().Interface().(*descriptorpb.UninterpretedOption)
+					dropped := false
+					for k, r := range pending {
+						if proto.Equal(r, u) {
+							pending = append(pending[:k], pending[k+1:]...)
+							dropped = true
+							break
+						}
+					}
+					if !dropped {
+						keep = append(keep, l.Get(i))
+					}
+				}
+				l.Truncate(0)
+				for _, v := range keep {
+					l.Append(v)
+				}
+			}
+			if lr := link(pr); lr != nil {
+				var rerrs int
+				rrep := reporter.NewHandler(reporter.NewReporter(func(reporter.ErrorWithPos) error { rerrs++; return nil }, nil))
+				if _, err := options.InterpretOptions(lr, rrep); err == nil && rerrs == 0 {
+					dOpts := map[string]protoreflect.Message{}
+					for _, o := range collectOptions(lr.FileDescriptorProto()) {
+						dOpts[o.path] = o.msg
+					}
+					for _, o := range collectOptions(C) {
+						got := proto.Clone(o.msg.Interface()).ProtoReflect()
+						if f := got.Descriptor().Fields().ByName("uninterpreted_option"); f != nil {
+							got.Clear(f)
+						}
+						var want protoreflect.Message
+						if d, ok := dOpts[o.path]; ok {
+							want = proto.Clone(d.Interface()).ProtoReflect()
+						} else {
+							want = got.New()
+						}
+						// compare through the wire so that extension values known to one side only
+						// (unlinked files keep custom options uninterpreted) do not matter
+						gb, _ := proto.MarshalOptions{Deterministic: true}.Marshal(got.Interface())
+						wb, _ := proto.MarshalOptions{Deterministic: true}.Marshal(want.Interface())
+						if string(gb) != string(wb) {
+							fail("unlinked-applies-statements-partially", "%s: unlinked interpretation gives {%s}, strict interpretation of the statements it did not leave uninterpreted gives {%s} (left uninterpreted: %d)", o.path, prototext.MarshalOptions{}.Format(got.Interface()), prototext.MarshalOptions{}.Format(want.Interface()), len(left[o.path]))
+							return
+						}
+					}
+				} else {
+					h.Count("reduced_strict_fails", 1)
+				}
+			} else {
+				h.Count("reduced_link_fails", 1)
+			}
+		}
 		for _, o := range collectOptions(C) {
 			rest := uninterpreted(o.msg)
 			if !isSubsequence(rest, origOpts[o.path]) {
@@ -239,8 +327,31 @@ func runC21(h *hx.H) {
 					bad = fmt.Sprintf("field %s is set by unlinked interpretation but not by strict", f.Name())
 					return false
 				}
-				if !v.Equal(am.Get(am.Descriptor().Fields().ByNumber(f.Number()))) {
-					bad = fmt.Sprintf("field %s: unlinked %v, strict %v", f.Name(), v, am.Get(f))
+				// a message-valued option of which some statement stays uninterpreted can only hold
+				// part of strict's value: every leaf it has must then equal strict's
+				partial := false
+				for _, u := range rest {
+					if len(u.Name) > 0 && !f.IsExtension() && !u.Name[0].GetIsExtension() && u.Name[0].GetNamePart() == string(f.Name()) {
+						partial = true
+					}
+					if len(u.Name) > 0 && f.IsExtension() && u.Name[0].GetIsExtension() {
+						partial = true
+					}
+				}
+				sv := am.Get(am.Descriptor().Fields().ByNumber(f.Number()))
+				if partial && f.Message() != nil && !f.IsList() && !f.IsMap() {
+					if leafSubset(v.Message(), sv.Message()) {
+						return true
+					}
+				}
+				if !v.Equal(sv) {
+					show := func(x protoreflect.Value) string {
+						if m, ok := x.Interface().(protoreflect.Message); ok {
+							return "{" + prototext.MarshalOptions{}.Format(m.Interface()) + "}"
+						}
+						return fmt.Sprint(x)
+					}
+					bad = fmt.Sprintf("field %s: unlinked %s, strict %s", f.Name(), show(v), show(am.Get(am.Descriptor().Fields().ByNumber(f.Number()))))
 					return false
 				}
 				return true
@@ -307,4 +418,31 @@ func unqualify(left, source []*descriptorpb.UninterpretedOption) []*descriptorpb
 		out = append(out, c)
 	}
 	return out
+}
+
+// leafSubset reports whether every field set in a is set in b with an equal value, descending into
+// singular message fields.
+func leafSubset(a, b protoreflect.Message) bool {
+	ok := true
+	a.Range(func(f protoreflect.FieldDescriptor, v protoreflect.Value) bool {
+		bf := b.Descriptor().Fields().ByNumber(f.Number())
+		if f.IsExtension() {
+			bf = f
+		}
+		if bf == nil || !b.Has(bf) {
+			ok = false
+			return false
+		}
+		if f.Message() != nil && !f.IsList() && !f.IsMap() {
+			if !leafSubset(v.Message(), b.Get(bf).Message()) {
+				ok = false
+			}
+			return ok
+		}
+		if !v.Equal(b.Get(bf)) {
+			ok = false
+		}
+		return ok
+	})
+	return ok
 }
